@@ -41,7 +41,12 @@ pub(crate) fn vk_respawn_worker(ex: &CommandExecutor<u64, u64>, store: Arc<Store
     slot
 }
 /// run the stashed worker: it executes whatever is queued and parks when the queue is empty
-pub(crate) fn vk_run_worker(slot: usize) { unsafe { vs::PARKED = false; } vthread::run(slot, 1); }
+pub(crate) fn vk_run_worker(slot: usize) {
+    unsafe { vs::PARKED = false; }
+    vs::consumer_holds(1, vs::CL_CMD_QUEUE, true);
+    vthread::run(slot, 1);
+    vs::consumer_holds(1, vs::CL_CMD_QUEUE, false);
+}
 pub(crate) fn vk_queue_len(ex: &CommandExecutor<u64, u64>) -> usize { ex.sender.len() }
 pub(crate) fn vk_queue_cap(ex: &CommandExecutor<u64, u64>) -> usize { ex.sender.vk_chan().vk_cap() }
 pub(crate) fn vk_peek(ex: &CommandExecutor<u64, u64>, k: usize) -> Option<CmdView> { ex.sender.vk_chan().vk_peek(k).map(|p| view(&p.command)) }
